@@ -215,8 +215,7 @@ Definition do_delete : RM event :=
   rdo p <~ pop2 ;;
   rdo from <~ rlift (to_line_number (fst p)) ;;
   rdo to <~ rlift (to_line_number (snd p)) ;;
-  if (from =? 0) && (to =? 65529) then rfail E_IllegalFunctionCall
-  else if to <? from then (fun r => (r, Panic))
+  if to <? from then (fun r => (r, Panic))
   else
     rdo r <~ rget ;;
     let ls := ls_lines (r_listing r) in
